@@ -1,5 +1,6 @@
 import AgVerif.Model.Paths
 import AgVerif.Proof.PathsNorm
+import AgVerif.Proof.PathsBelow
 import AgVerif.Proof.PathsClean
 /-!
 C37 — decompile output stays inside the output directory.  Model: `AgVerif.Paths.classDir`,
@@ -8,7 +9,9 @@ fixes/C37-decompile-output-containment.diff) over the model of posixpath and of 
 
 `Inside out p`: the path `p`, normalised as `os.path.normpath` does, has the same kind of root as
 `out` and the normalised components of `out` as a prefix of its components; `StrictlyInside` also
-excludes `out` itself.  The theorems hold for EVERY output path (relative, absolute, with `..`),
+excludes `out` itself.  `Inside` is a PREFIX test and says nothing when `out` normalises to no component
+(".", "", "a/.."); the statement of record is therefore the strong form `outputs_below` further down
+(`Below`: components of `out` followed by real components only).  The theorems hold for EVERY output path (relative, absolute, with `..`),
 class name, method short string, file-system state `isfile` and loop budget.
 -/
 namespace AgVerif.C37
@@ -68,6 +71,78 @@ theorem outputs_inside_normpath (isfile : Path → Bool) (fuel : Nat) (out cls s
    fun b ext hext h => normpath_sep_prefix_of_strictlyInside out _ hout
      (method_file_inside isfile fuel out cls short b ext hext h)⟩
 
+/-! ### the strong form (audit follow-up)
+
+`Inside out p` is a prefix test; when the output directory normalises to NO component (`-o .`, `""`,
+`a/..`) the empty list is a prefix of everything and `Inside "." "../x"` holds (`inside_is_weak_for_dot`).
+`Below out p` closes that hole: the normalised components of `p` are exactly those of `out` followed by
+real components (non-empty, no '/', not "." and not ".."), so no `..` can follow the output directory,
+whatever it is. -/
+
+/-- class folder: `normComps d = normComps out ++ cs`, every component of `cs` a real one -/
+theorem class_dir_below (out cls d : List Char) (h : classDir out cls = some d) : Below out d :=
+  AgVerif.Paths.class_dir_below out cls d h
+
+/-- `.java` file: … and at least one such component -/
+theorem java_file_below (out cls j : List Char) (h : javaFile out cls = some j) : StrictlyBelow out j :=
+  AgVerif.Paths.java_file_below out cls j h
+
+/-- method files -/
+theorem method_file_below (isfile : Path → Bool) (fuel : Nat) (out cls short b ext : List Char)
+    (hext : ext ≠ [] ∧ sep ∉ ext ∧ '.' ∉ ext)
+    (h : methodBase isfile fuel out cls short = some (.ok b)) :
+    StrictlyBelow out (b ++ '.' :: ext) := by
+  unfold methodBase at h
+  cases hd : classDir out cls with
+  | none => simp [hd] at h
+  | some d =>
+    simp [hd] at h
+    obtain ⟨_, f, hb, hc, _⟩ := AgVerif.PathsClean.cleanFileName_ok _ _ _ _ _ _ h
+    rw [hb]
+    exact method_target_below_classDir out cls d short f ext hd
+      (AgVerif.PathsClean.sep_not_mem_of_clean f hc) hext
+
+/-- C37, strong form, one statement: for EVERY output directory string — including ".", "" and
+    "a/.." — the normalised path of everything the export creates is the normalised output directory
+    followed only by real path components (never "..", ".", empty, never containing '/'), with the
+    same root kind; files have at least one such component -/
+theorem outputs_below (isfile : Path → Bool) (fuel : Nat) (out cls short : List Char) :
+    (∀ d, classDir out cls = some d → Below out d) ∧
+    (∀ j, javaFile out cls = some j → StrictlyBelow out j) ∧
+    (∀ b ext, ext ≠ [] ∧ sep ∉ ext ∧ '.' ∉ ext → methodBase isfile fuel out cls short = some (.ok b) →
+      StrictlyBelow out (b ++ '.' :: ext)) :=
+  ⟨fun d h => class_dir_below out cls d h, fun j h => java_file_below out cls j h,
+   fun b ext hext h => method_file_below isfile fuel out cls short b ext hext h⟩
+
+/-- `Below` implies the prefix form, and pins down everything after the prefix -/
+theorem below_spec (out p : Path) (h : Below out p) :
+    Inside out p ∧ (∀ c ∈ (normComps p).drop (normComps out).length, SafeComp c) ∧
+    (normComps out = [] → ∀ c ∈ normComps p, c ≠ dotdot ∧ c ≠ dot ∧ c ≠ [] ∧ sep ∉ c) :=
+  ⟨h.inside, h.tail_safe, h.no_dotdot_of_empty⟩
+
+/-- for `-o .` (or "" or "a/.."): no created path normalises to something containing a ".." component -/
+theorem outputs_no_dotdot_when_out_is_dot (isfile : Path → Bool) (fuel : Nat) (out cls short : List Char)
+    (hout : normComps out = []) :
+    (∀ d, classDir out cls = some d → dotdot ∉ normComps d) ∧
+    (∀ j, javaFile out cls = some j → dotdot ∉ normComps j) ∧
+    (∀ b ext, ext ≠ [] ∧ sep ∉ ext ∧ '.' ∉ ext → methodBase isfile fuel out cls short = some (.ok b) →
+      dotdot ∉ normComps (b ++ '.' :: ext)) := by
+  refine ⟨fun d h hm => ?_, fun j h hm => ?_, fun b ext hext h hm => ?_⟩
+  · exact ((class_dir_below out cls d h).no_dotdot_of_empty hout _ hm).1 rfl
+  · exact ((java_file_below out cls j h).below.no_dotdot_of_empty hout _ hm).1 rfl
+  · exact ((method_file_below isfile fuel out cls short b ext hext h).below.no_dotdot_of_empty hout _ hm).1 rfl
+
+/-- the weakness the audit found in the prefix form, and that `Below` does not share it -/
+theorem inside_is_weak_for_dot : Inside ".".toList "../x".toList ∧ ¬ Below ".".toList "../x".toList := by
+  constructor
+  · exact ⟨by decide, by decide⟩
+  · rintro ⟨cs, hs, h, _⟩
+    have e : normComps "../x".toList = ["..".toList, "x".toList] := by decide
+    have e0 : normComps ".".toList = [] := by decide
+    rw [e, e0, List.nil_append] at h
+    have := hs "..".toList (by rw [← h]; simp)
+    exact this.2.2.2 (by decide)
+
 /-- the class-name part alone: only real path components survive -/
 theorem valid_class_name_safe (cn v : List Char) (h : validClassName cn = some v) :
     ∃ cs, (∀ c ∈ cs, SafeComp c) ∧ v = join [] cs :=
@@ -81,6 +156,17 @@ example : classDir "/t/out".toList "L/etc//./passwd/;".toList = some "/t/out/etc
 example : classDir "out".toList "L;".toList = some "out/".toList ∧ validClassName [] = none := by decide
 example : methodBase (fun _ => false) 2 "/t/out".toList "Lp/Cls;".toList "Cls /../../../../../y ()V".toList =
     some (.ok "/t/out/p/Cls/Cls _.._.._.._.._.._y ()V".toList) := by decide
+-- output directory "." (normalises to no component): the hostile names stay below it, nothing is "..";
+-- the witnesses of `Below`/`StrictlyBelow` are the components listed
+example : classDir ".".toList "L../../x;".toList = some "./x".toList ∧
+    normComps ".".toList = [] ∧ normComps "./x".toList = ["x".toList] := by decide
+example : javaFile ".".toList "L../../x;".toList = some "./x.java".toList ∧
+    normComps "./x.java".toList = ["x.java".toList] := by decide
+example : methodBase (fun _ => false) 2 ".".toList "L../p/..;".toList "Cls /../../y ()V".toList =
+    some (.ok "./p/Cls _.._.._y ()V".toList) ∧
+    normComps "./p/Cls _.._.._y ()V.ag".toList = ["p".toList, "Cls _.._.._y ()V.ag".toList] := by decide
+example : classDir "a/..".toList "L../x;".toList = some "a/../x".toList ∧ normComps "a/../x".toList = ["x".toList] := by
+  decide
 example : normpath "/t/out/../../x".toList = "/x".toList ∧ normComps "/t/out".toList = ["t".toList, "out".toList] := by
   decide
 
